@@ -59,28 +59,7 @@ func c10(w *core.World, r *core.Report) {
 	ruleMultiKeySpecs(w, r)
 	r.Rule("R10.8", "what is forwarded is the filter's projection, not the decoded argument list (both incremental parsers)", 2)
 	ruleNothingInventedParser(w, r)
-	if f := fn(w, r, "(*syncer.RedisOutput).parseAofReplayUnits"); f != nil {
-		isProj := isResultOf("*RedisKeyFilter).FilterCmdKey", 0)
-		isRaw := isResultOf("pkg/redis/client.ParseArgs", 1)
-		nProj, nRaw := 0, 0
-		var pos token.Pos = f.Pos()
-		for _, st := range core.Sites(f, false) {
-			// calls that build a command value: a closure of the parser (makeCmd) or a function written for it
-			if !buildsBisyncCommand(st) {
-				continue
-			}
-			for _, a := range st.Args() {
-				if isProj(a) {
-					nProj++
-				}
-				if isRaw(a) {
-					nRaw++
-					pos = st.Pos()
-				}
-			}
-		}
-		r.Check(nProj >= 1 && nRaw == 0, "parseAofReplayUnits/command-from-projection", pos, "the command put into a replay unit must be built from FilterCmdKey's projected arguments (%d site(s)); building it from the decoded arguments (%d site(s)) forwards keys the filter rejected", nProj, nRaw)
-	}
+	ruleUnitFromProjection(w, r)
 
 	// The slot rule passes "exactly the configured set" only if the slot it
 	// computes is the cluster's: the slot-function rules of C11 are obligations
@@ -1563,5 +1542,33 @@ func ruleWithheldOnlyByFilters(w *core.World, r *core.Report) {
 	}
 	if n == 0 {
 		r.Fail("snapshot-workers/withheld-only-by-filters", token.NoPos, "no snapshot worker found")
+	}
+}
+
+
+// ruleUnitFromProjection (part of R10.8, shared with C18): the command a replay unit is built from —
+// and whose keys decide the unit's slot and the single-slot test — is the filter's projection.
+func ruleUnitFromProjection(w *core.World, r *core.Report) {
+	if f := fn(w, r, "(*syncer.RedisOutput).parseAofReplayUnits"); f != nil {
+		isProj := isResultOf("*RedisKeyFilter).FilterCmdKey", 0)
+		isRaw := isResultOf("pkg/redis/client.ParseArgs", 1)
+		nProj, nRaw := 0, 0
+		var pos token.Pos = f.Pos()
+		for _, st := range core.Sites(f, false) {
+			// calls that build a command value: a closure of the parser (makeCmd) or a function written for it
+			if !buildsBisyncCommand(st) {
+				continue
+			}
+			for _, a := range st.Args() {
+				if isProj(a) {
+					nProj++
+				}
+				if isRaw(a) {
+					nRaw++
+					pos = st.Pos()
+				}
+			}
+		}
+		r.Check(nProj >= 1 && nRaw == 0, "parseAofReplayUnits/command-from-projection", pos, "the command put into a replay unit must be built from FilterCmdKey's projected arguments (%d site(s)); building it from the decoded arguments (%d site(s)) forwards keys the filter rejected", nProj, nRaw)
 	}
 }
